@@ -38,7 +38,7 @@ CHECKS = {
          "4 C13"),
  "C15": ("model_checking",
          "bounded-exhaustive trie search over the alphabets minus '<' and '=' on the public API",
-         "Every string over (H1 minus < =)<=5/<=6 and over the fragment alphabet minus atoms containing those bytes plus encoded forms (&#60; &#61; javascript: on* href style ...)<=4/<=5, and every fixture cut with both bytes deleted, must give IsXSS=false.",
+         "Every string over (H1 minus < =)<=5/<=6 and over the fragment alphabet minus atoms containing those bytes plus encoded forms (&#60; &#61; javascript: on* href style ...)<=4/<=5, every fixture cut with both bytes deleted, and every base vector of the C04 grammar with its markup bytes respelled in 26 byte-level encodings (URL, HTML references, JS / CSS escapes, UTF-7 units, overlong UTF-8, full-width, high-bit) or carried whole in UTF-7 / base64, bare and behind 6 prefixes, must give IsXSS=false.",
          "Nothing beyond the enumerated levels is claimed.",
          "4 C15"),
  "C17": ("model_checking",
